@@ -35,6 +35,9 @@
 (*          first script only; with the tag `slow`, which the registries   *)
 (*          do not answer, its only call is cut off by the timeout)        *)
 (*   cmd    "once" | "server": which command makes the dry run             *)
+(*   verb   -v trace | debug | info | warn | error                         *)
+(*   logfmt "json" (--logopt json) | "text"                                *)
+(*   cfgin  "file" (--config f) | "stdin" (--config -)                     *)
 (***************************************************************************)
 EXTENDS RegbotMC, Json
 
@@ -169,7 +172,8 @@ FollowUps == {<<S("image.copy", "a1", "v1", "b1", "new"), S("image.config", "a1"
               <<S("image.config", "lay", "v1", "", ""), S("image.importTar", "a2", "new", "good", "")>>}
 
 (* ------------------------------ configs -------------------------------- *)
-Cfg(w, p, ss) == [world |-> w, mt |-> "oci", feat |-> "full", tmo |-> "default", cmd |-> "once", par |-> p, scripts |-> ss]
+Cfg(w, p, ss) == [world |-> w, mt |-> "oci", feat |-> "full", tmo |-> "default", cmd |-> "once", verb |-> "info", logfmt |-> "json",
+                  cfgin |-> "file", par |-> p, scripts |-> ss]
 One == Singles \cup Chains \cup AfterW \cup Guarded \cup Loops \cup Errors \cup Mixed \cup Forms
 UsesLay(s) == \E i \in 1..Len(s) : "lay" \in {s[i].l1, s[i].l2}
 IsoBase ==
@@ -180,8 +184,28 @@ IsoBase ==
 ServerOne == {Sq(w) : w \in WProbe}
              \cup {<<A1v1, S("manifest.put", t[1], t[2], "", "")>> : t \in {<<"b1", "new">>, <<"lay", "new">>}}
              \cup {<<S("image.config", "a1", "v1", "", ""), S("blob.put", "b1", "", "$c", "")>>, <<S("tag.ls", "a1", "", "", ""), S("manifest.head", "lay", "v1", "", "")>>}
+\* global command line options: every write binding on a registry and on the layout (alone, fed by
+\* a producer, in a loop, behind a guard), some reads, failing scripts next to others
+OptOne == {Sq(w) : w \in WProbe}
+          \cup {<<A1v1, S(op, t[1], t[2], "", "")>> : op \in {"manifest.put", "m:put"}, t \in {<<"a1", "new">>, <<"b1", "new">>, <<"lay", "new">>}}
+          \cup {<<S("manifest.getList", "a1", "ix", "", ""), S("m:put", "b1", "new", "", "")>>}
+          \cup {<<S(op, r[1], r[2], "", ""), S("m:delete", "", "", "", "")>> : op \in {"manifest.head", "manifest.getList"}, r \in {<<"a1", "v1">>, <<"lay", "v1">>, <<"lay", "ix">>}}
+          \cup {<<S("image.config", "a1", "v1", "", ""), S("blob.put", l, "", "$c", "")>> : l \in {"b1", "lay"}}
+          \cup {<<S("blob.get", "a1", "", "C1", ""), c>> : c \in {S("blob.put", "lay", "", "$b", ""), S("blob.put", "a2", "", "$b", ""), S("b:put", "", "", "$b", "")}}
+          \cup {Sq(S(op, "a1", "ix", t[1], t[2])) : op \in {"image.copy+dt", "image.copy+fr", "image.copy+pf", "image.copy+ie"}, t \in {<<"b1", "new">>, <<"lay", "new">>}}
+          \cup {<<F(l, "1"), S("tag.delete", "@", "", "", "")>> : l \in {"a1", "lay"}}
+          \cup {<<F(l, "2"), S("manifest.head", "@", "", "", ""), S("m:delete", "", "", "", "")>> : l \in {"a1", "lay"}}
+          \cup {<<S("if.head", r[1], r[2], "", ""), S("tag.delete", r[1], r[2], "", ""), S("tag.ls", r[1], "", "", "")>> : r \in {<<"a1", "v1">>, <<"lay", "ix">>}}
+          \cup {<<S("tag.ls", "a1", "", "", ""), S("manifest.get", "lay", "ix", "", ""), S("image.config", "a1", "v1", "", "")>>}
+OptIso == {Cfg("A", p, <<f, u>>) : p \in {0, 1}, u \in {<<S("image.copy", "a1", "v1", "b1", "new"), S("image.config", "a1", "v1", "", "")>>},
+             f \in {Sq(ErrorStmt), Sq(S("error:table", "", "", "", "")), Sq(S("manifest.get", "a1", "none", "", "")),
+                    <<S("manifest.getList", "a1", "ix", "", ""), S("image.config", "$m", "", "", "")>>}}
+OptBase == {Cfg("A", 0, <<s>>) : s \in OptOne} \cup OptIso
 Configs ==
   {Cfg(w, 0, <<s>>) : w \in {"A", "B"}, s \in One}
+  \cup {[c EXCEPT !.verb = v] : c \in OptBase, v \in {"trace", "debug", "warn", "error"}}
+  \cup {[c EXCEPT !.logfmt = "text", !.verb = v] : c \in OptBase, v \in {"info", "error"}}
+  \cup {[c EXCEPT !.cfgin = "stdin", !.verb = v] : c \in OptBase, v \in {"info", "warn"}}
   \cup {Cfg("N", 0, <<s>>) : s \in {x \in One \ Mixed : UsesLay(x)}}
   \cup {[Cfg("A", 0, <<s>>) EXCEPT !.mt = "docker"] : s \in Singles \cup Chains \cup Forms}
   \cup {[Cfg("A", 0, <<s>>) EXCEPT !.feat = "min"] : s \in Chains \cup AfterW \cup Guarded \cup Loops \cup Forms}
@@ -193,7 +217,7 @@ Configs ==
 (* ------------------------- execution by (D) ---------------------------- *)
 Pad(ss) == [s \in Scripts |-> IF s <= Len(ss) THEN ss[s] ELSE <<>>]
 GInit == \E c \in Configs, m \in {"dry", "nor"} :
-           /\ prog = Pad(c.scripts) /\ hist = <<>> /\ dims = [world |-> c.world, mt |-> c.mt, feat |-> c.feat, tmo |-> c.tmo, cmd |-> c.cmd]
+           /\ prog = Pad(c.scripts) /\ hist = <<>> /\ dims = [world |-> c.world, mt |-> c.mt, feat |-> c.feat, tmo |-> c.tmo, cmd |-> c.cmd, verb |-> c.verb, logfmt |-> c.logfmt, cfgin |-> c.cfgin]
            /\ InitWith(Worlds[c.world], m, c.par)
 Ext(s) == IF ip[s] < Len(prog[s]) THEN prog[s][ip[s] + 1] ELSE NoStmt
 BodyOf(s) == SubSeq(prog[s], ip[s] + 2, ip[s] + 1 + (IF Ext(s).l2 = "2" THEN 2 ELSE 1))
@@ -214,7 +238,7 @@ X(st) == IF st.t1 = "" THEN st.l1 ELSE st.l1 \o ":" \o st.t1
 Y(st) == IF st.t2 = "" THEN st.l2 ELSE st.l2 \o ":" \o st.t2
 Out(st) == [op |-> st.op, x |-> X(st), y |-> Y(st), p |-> st.p]
 NScripts == Cardinality({s \in Scripts : prog[s] # <<>>})
-Scn == [world |-> dims.world, mt |-> dims.mt, feat |-> dims.feat, tmo |-> dims.tmo, cmd |-> dims.cmd, tags |-> W0.tag, par |-> par, mode |-> mode,
+Scn == [world |-> dims.world, mt |-> dims.mt, feat |-> dims.feat, tmo |-> dims.tmo, cmd |-> dims.cmd, verb |-> dims.verb, logfmt |-> dims.logfmt, cfgin |-> dims.cfgin, tags |-> W0.tag, par |-> par, mode |-> mode,
         scripts |-> [s \in 1..NScripts |-> [i \in 1..Len(prog[s]) |-> Out(prog[s][i])]],
         exp |-> hist, final |-> W.tag, status |-> [s \in 1..NScripts |-> pc[s]], tar |-> tar]
 Emit == AllOver => PrintT(<<"SCN", ToJson(Scn)>>)
